@@ -181,6 +181,9 @@ func Open(opt Options) (*DB, error) {
 	}
 
 	if ok := filesystem.PathIsExist(db.opt.Dir); !ok {
+		if err := verifFS("mkdir", db.opt.Dir, 0, nil); err != nil {
+			return nil, err
+		}
 		if err := os.MkdirAll(db.opt.Dir, os.ModePerm); err != nil {
 			return nil, err
 		}
@@ -193,6 +196,9 @@ func Open(opt Options) (*DB, error) {
 	if opt.EntryIdxMode == HintBPTSparseIdxMode {
 		bptRootIdxDir := db.opt.Dir + "/" + bptDir + "/root"
 		if ok := filesystem.PathIsExist(bptRootIdxDir); !ok {
+			if err := verifFS("mkdir", bptRootIdxDir, 0, nil); err != nil {
+				return nil, err
+			}
 			if err := os.MkdirAll(bptRootIdxDir, os.ModePerm); err != nil {
 				return nil, err
 			}
@@ -200,6 +206,9 @@ func Open(opt Options) (*DB, error) {
 
 		bptTxIDIdxDir := db.opt.Dir + "/" + bptDir + "/txid"
 		if ok := filesystem.PathIsExist(bptTxIDIdxDir); !ok {
+			if err := verifFS("mkdir", bptTxIDIdxDir, 0, nil); err != nil {
+				return nil, err
+			}
 			if err := os.MkdirAll(bptTxIDIdxDir, os.ModePerm); err != nil {
 				return nil, err
 			}
@@ -207,6 +216,9 @@ func Open(opt Options) (*DB, error) {
 
 		bucketMetaDir := db.opt.Dir + "/meta/bucket"
 		if ok := filesystem.PathIsExist(bucketMetaDir); !ok {
+			if err := verifFS("mkdir", bucketMetaDir, 0, nil); err != nil {
+				return nil, err
+			}
 			if err := os.MkdirAll(bucketMetaDir, os.ModePerm); err != nil {
 				return nil, err
 			}
@@ -366,6 +378,11 @@ func (db *DB) Merge() error {
 			return err
 		}
 
+		if err := verifFS("remove", db.getDataPath(int64(pendingMergeFId)), 0, nil); err != nil {
+			db.isMerging = false
+			f.rwManager.Close()
+			return fmt.Errorf("when merge err: %s", err)
+		}
 		if err := os.Remove(db.getDataPath(int64(pendingMergeFId))); err != nil {
 			db.isMerging = false
 			f.rwManager.Close()
@@ -567,6 +584,9 @@ func (db *DB) buildBPTreeRootIdxes(dataFileIds []int) error {
 	for i := 0; i < len(dataFileIds[0:dataFileIdsSize-1]); i++ {
 		off = 0
 		path := db.getBPTRootPath(int64(dataFileIds[i]))
+		if err := verifFS("create", path, 0, nil); err != nil {
+			return err
+		}
 		fd, err := os.OpenFile(path, os.O_CREATE|os.O_RDWR, 0644)
 		if err != nil {
 			return err
